@@ -1,7 +1,7 @@
 """C02 — derived group keys equal the MS-GKDI chain from any covering seed material."""
 from __future__ import annotations
 import hashlib, hmac, struct, uuid
-import prelude, gen, toycrypto, refserver
+import prelude, gen, toycrypto, refserver, refimpl
 from check import canon_exc, hx
 
 MANIFEST = {
@@ -141,7 +141,8 @@ def run(ctx):
             # root-key path: compute_l1_key must be K1(31)
             if g.compute_l1_key(sd, RK, l0, root, h) != spec.K1[31]:
                 ctx.violation("compute_l1_key differs from the spec chain (real HMAC)", {"hash": hn}, "differs", "K1(31)")
-            sample = [(31, 31, 17, 13), (31, 31, 0, 0), (31, 31, 31, 31), (17, 13, 17, 13), (17, 13, 16, 31), (17, 13, 0, 0), (17, 31, 17, 0), (0, 5, 0, 0)]
+            sample = [(31, 31, 17, 13), (31, 31, 0, 0), (31, 31, 31, 31), (17, 13, 17, 13), (17, 13, 16, 31), (17, 13, 0, 0), (17, 31, 17, 0), (0, 5, 0, 0),
+                      (17, 31, 17, 31), (0, 31, 0, 31), (9, 31, 9, 31), (9, 0, 9, 0)]      # requests AT the envelope's own position
             for _ in range(400 if ctx.thorough else 40):
                 a, b = rng.randrange(32), rng.randrange(32)
                 r1 = rng.randrange(a + 1)
@@ -158,6 +159,20 @@ def run(ctx):
                     n_real += 1
                     if got != spec.K2[(r1, r2)]:
                         ctx.violation("derived L2 key differs from the MS-GKDI chain (real HMAC)", {"hash": hn, "envelope": [a, b], "request": [r1, r2]}, hx(got)[:32], hx(spec.K2[(r1, r2)])[:32])
+                    # the consumer of the derivation: GroupKeyEnvelope.get_kek for a (nonce-mode) key identifier at the requested position
+                    # must use the chain key, whichever shortcut it takes to get there: KEK = KDF(K2(r1, r2), label, key_info)
+                    env_h = gen.make_env(l0=l0, l1=a, l2=b, l1_key=k1, l2_key=k2, kdf_parameters=gen.kdf_params(hn.upper()))
+                    kid = gen.make_kid(l0=l0, l1=r1, l2=r2, flags=0, key_info=bytes([r1, r2, a, b]) * 8)
+                    rlog.reset_budget()
+                    try:
+                        gotk = env_h.get_kek(kid)
+                    except Exception as e:  # noqa
+                        gotk = ("raised " + type(e).__name__).encode()
+                    ctx.count("real_hmac_get_kek_cases")
+                    wantk = refimpl.kek_nonce(hn, spec.K2[(r1, r2)], kid.key_info)
+                    if gotk != wantk:
+                        ctx.violation("get_kek derives the KEK from a key that is not the MS-GKDI chain key of the requested position (real HMAC)",
+                                      {"hash": hn, "envelope": [a, b], "request": [r1, r2], "l2_key_present": bool(k2), "scenario": "get_kek"}, hx(gotk)[:32], hx(wantk)[:32])
                     # the same seed material as it arrives from a server: packed by the reference DC's own packer (not the library's),
                     # wrapped in the NDR64 GetKey reply, decoded by GetKey.unpack_response
                     reply = wire_reply(env)
@@ -309,8 +324,14 @@ def replay(ctx, payload):
         env = gen.make_env(l0=l0, l1=a, l2=b, l1_key=k1, l2_key=k2)
         with toycrypto.recording() as log:
             try:
-                got = g.compute_l2_key(hobj, r1, r2, g.GetKey.unpack_response(wire_reply(env)) if v.get("scenario") == "wire" else env)
-                ok = covered and got == spec.K2[(r1, r2)]
+                if v.get("scenario") == "get_kek":
+                    kid = gen.make_kid(l0=l0, l1=r1, l2=r2, flags=0, key_info=bytes([r1, r2, a, b]) * 8)
+                    env_h = gen.make_env(l0=l0, l1=a, l2=b, l1_key=k1, l2_key=k2, kdf_parameters=gen.kdf_params(hn.upper()))
+                    got = env_h.get_kek(kid)
+                    ok = covered and got == refimpl.kek_nonce(hn, spec.K2[(r1, r2)], kid.key_info)
+                else:
+                    got = g.compute_l2_key(hobj, r1, r2, g.GetKey.unpack_response(wire_reply(env)) if v.get("scenario") == "wire" else env)
+                    ok = covered and got == spec.K2[(r1, r2)]
             except ValueError:
                 ok = not covered
             except toycrypto.KdfBudgetExceeded:
